@@ -139,6 +139,8 @@ impl AbstractInstructionSet {
         mut self,
         mut log: impl FnMut(&str),
     ) -> AbstractInstructionSet {
+        #[cfg(fuellabs_sway_verif)]
+        crate::verif_hooks::asm_pass("enter", "constant_propagate", &self.function, &self.ops);
         if self.ops.is_empty() {
             return self;
         }
@@ -495,6 +497,8 @@ impl AbstractInstructionSet {
             reset.apply(op, &mut known_values);
         }
 
+        #[cfg(fuellabs_sway_verif)]
+        crate::verif_hooks::asm_pass("exit", "constant_propagate", &self.function, &self.ops);
         self
     }
 }
